@@ -5,7 +5,7 @@ CONSTANTS
   Intruders = {2}
   Checks <- AllChecks
   ForgedKinds <- AllKinds
-  MaxForged = 4
+  MaxForged = 6
   MaxDup = 2
-INVARIANTS Emit TypeOK HistoryClean TransitionSound ConsumedClean EqualKeys KeyFromOperating MisbehavedIsExcluded OperatingNeverFail IntrudersNeverJoin IntruderFailsAtRoundThree
+INVARIANTS Emit EmitProbes TypeOK HistoryClean TransitionSound ConsumedClean EqualKeys KeyFromOperating MisbehavedIsExcluded OperatingNeverFail IntrudersNeverJoin IntruderFailsAtRoundThree
 CONSTRAINT StopAfterEmit
